@@ -32,7 +32,16 @@ TReturn == /\ IsEv("Return") /\ pc = "run" /\ Step
            /\ ret' = V /\ pc' = "returned" /\ UNCHANGED <<n, cap, full, cnt, best0>>
 TCheck == /\ IsEv("Check") /\ pc = "returned" /\ Step /\ V = ret /\ pc' = "checked"
           /\ UNCHANGED <<n, cap, full, cnt, best0, ret>>
-TQuad == /\ IsEv("Quad") /\ pc = "checked" /\ Step /\ (Ev.judge = 1 => Ev.dist <= MinTol) /\ pc' = "idle"
+\* offset class: the minimum VALUE is large in magnitude and the tolerance coarser.  The documented stop test is absolute (spread of
+\* the vertex values < xtol), and f cannot be resolved below ~ 1e-15 |f*|: with R = max(log10 xtol, log10 |f*| - 15) and smallest
+\* eigenvalue 1, a run that STOPPED ON ITS TOLERANCE (conv = 1) returns a point within 30 sqrt(10^R) of the minimiser
+\* (absolute, 1e-9 units: 3 * 10^(10 + R/2); calibrated on 2,700 runs of the unchanged tree: worst 0.094 of this bound).
+AbsBound(R) == CASE R <= -12 -> 30000 [] R = -11 -> 94868 [] R = -10 -> 300000 [] R = -9 -> 948683 [] R = -8 -> 3000000
+                 [] R = -7 -> 9486833 [] OTHER -> 30000000
+TQuad == /\ IsEv("Quad") /\ pc = "checked" /\ Step /\ pc' = "idle"
+         /\ ((Ev.judge = 1 /\ Ev.cls = 0) => Ev.dist <= MinTol)
+         /\ ((Ev.judge = 1 /\ Ev.cls = 1) => Ev.dist <= MinTol)
+         /\ ((Ev.judge = 1 /\ Ev.cls = 1 /\ Ev.conv = 1) => Ev.adist <= AbsBound(Ev.R))
          /\ UNCHANGED <<n, cap, full, cnt, best0, ret>>
 Next == TReset \/ TEval \/ TInitBest \/ TReturn \/ TCheck \/ TQuad
 Spec == Init /\ [][Next]_vars
